@@ -194,5 +194,61 @@ func TestVerifConfChain(t *testing.T) {
 			check(declared, fmt.Sprintf("v%d", i), "v2fork", "-line")
 		}
 	}
-	fmt.Printf("CONF-STATS evaluated=%d scope=rule sets of <=5 rules over versions {v0,v1,v1beta1,v3} with mixed short/full spellings, all (from,to) requests; upgrade-only lines of 2-6 versions with a fork; five rule sets spelling one version with two groups; every returned chain is sound, and a chain is found whenever the reference search finds one\n", evaluated)
+	// histories: two or three requests answered by ONE storage - the path cache persists between the
+	// requests of a CRD, so what an earlier request cached must not hide a chain from a later one
+	checkSeq := func(declared []Rule, reqs [][2]string, tag string) {
+		evaluated++
+		cs := NewChainStorage()
+		ch := cs.Get("crd")
+		for _, r := range declared {
+			ch.Put(r)
+		}
+		for k, rq := range reqs {
+			path := cs.FindConversionChain("crd", Rule{FromVersion: rq[0], ToVersion: rq[1]})
+			if len(path) == 0 && vcReachable(declared, rq[0], rq[1]) {
+				report("chain-not-found"+tag, "webhook/conversion.(ChainStorage).FindConversionChain", fmt.Sprintf("rules %v, requests %v on one storage: request #%d %s->%s: a chain exists but none was found", declared, reqs, k+1, rq[0], rq[1]))
+			}
+			if len(path) > 0 {
+				if why := vcValid(path, declared, rq[0], rq[1]); why != "" {
+					report("chain-invalid-path"+tag, "webhook/conversion.(ChainStorage).FindConversionChain", fmt.Sprintf("rules %v, requests %v on one storage: request #%d got %v: %s", declared, reqs, k+1, path, why))
+				}
+			}
+		}
+	}
+	for n := 3; n <= 5; n++ {
+		var declared []Rule
+		var names []string
+		for i := 1; i <= n; i++ {
+			names = append(names, fmt.Sprintf("v%d", i))
+			if i < n {
+				declared = append(declared, Rule{FromVersion: fmt.Sprintf("v%d", i), ToVersion: fmt.Sprintf("v%d", i+1)})
+			}
+		}
+		declared = append(declared, Rule{FromVersion: "v2", ToVersion: "v2fork"}, Rule{FromVersion: fmt.Sprintf("v%d", n), ToVersion: "v1"})
+		names = append(names, "v2fork")
+		var reqs [][2]string
+		for _, a := range names {
+			for _, b := range names {
+				if a != b {
+					reqs = append(reqs, [2]string{a, b})
+				}
+			}
+		}
+		for _, r1 := range reqs {
+			for _, r2 := range reqs {
+				if r1 != r2 {
+					checkSeq(declared, [][2]string{r1, r2}, "-history")
+				}
+			}
+		}
+		// growing targets from one source, then the reverse order
+		var grow, shrink [][2]string
+		for i := 2; i <= n; i++ {
+			grow = append(grow, [2]string{"v1", fmt.Sprintf("v%d", i)})
+			shrink = append([][2]string{{"v1", fmt.Sprintf("v%d", i)}}, shrink...)
+		}
+		checkSeq(declared, grow, "-history")
+		checkSeq(declared, shrink, "-history")
+	}
+	fmt.Printf("CONF-STATS evaluated=%d scope=rule sets of <=5 rules over versions {v0,v1,v1beta1,v3} with mixed short/full spellings, all (from,to) requests; upgrade-only lines of 2-6 versions with a fork; five rule sets spelling one version with two groups; histories of two requests (all ordered pairs) and of growing / shrinking targets on one storage over cyclic lines of 3-5 versions with a fork; every returned chain is sound, and a chain is found whenever the reference search finds one\n", evaluated)
 }
